@@ -27,7 +27,10 @@ def arch_servers():
     H = fn.simple_server(kex=('diffie-hellman-group1-sha1', 'curve25519-sha256'), key=('ssh-dss', 'ssh-ed25519'), enc=('arcfour', 'aes128-cbc', 'aes256-ctr'), mac=('hmac-md5', 'hmac-sha1-etm@openssh.com'), hostkeys=ed)
     I = fn.simple_server(kex=('diffie-hellman-group-exchange-sha256',), key=('ssh-ed25519',), enc=('aes256-ctr',), mac=('hmac-sha2-256-etm@openssh.com',),
                          hostkeys=ed, gex=lambda mn, pf, mx: 4096 if mx >= 4096 else None, banner=b'SSH-2.0-OpenSSH_8.9')
-    return {'A': A, 'B': B, 'C': C, 'D': D, 'E': E, 'F': F, 'G': G, 'H': H, 'I': I}
+    # only one member of the RSA family offered, same banner, different key sizes (findings are written onto the whole family, offered or not)
+    L = fn.simple_server(kex=('curve25519-sha256',), key=('rsa-sha2-512',), enc=('aes256-ctr',), mac=('hmac-sha2-256-etm@openssh.com',), hostkeys={'rsa-sha2-512': fn.rsa_blob(2048)})
+    M = fn.simple_server(kex=('curve25519-sha256',), key=('rsa-sha2-512',), enc=('aes256-ctr',), mac=('hmac-sha2-256-etm@openssh.com',), hostkeys={'rsa-sha2-512': fn.rsa_blob(4096)})
+    return {'A': A, 'B': B, 'C': C, 'D': D, 'E': E, 'F': F, 'G': G, 'H': H, 'I': I, 'L': L, 'M': M}
 
 
 def fail_servers():
@@ -42,6 +45,8 @@ def fail_servers():
         'trunckex': fn.Server(raw_after_banner=fn.pkt(good_kex[:40])),
         'wrongtype': fn.Server(raw_after_banner=fn.pkt(b'\x15' + good_kex[1:])),
         'probegarbage': fn.simple_server(kex=('curve25519-sha256',), key=('ssh-ed25519',), hostkeys={'ssh-ed25519': ('raw', b'\x00\x00\x00\x0d\x04garbage-garbage-garbage')}),
+        'halfpacket': fn.Server(raw_after_banner=fn.pkt(good_kex)[:20]),                       # banner, the start of a packet, then silence
+        'halfbanner': fn.Server(banner=b'SSH-2.0-Open', banner_eol=b'', kexinit_payload=None),   # part of the identification line, then silence
         'probetrunc': fn.simple_server(kex=('curve25519-sha256',), key=('ssh-ed25519',), hostkeys={'ssh-ed25519': ('raw', fn.pkt(bytes([31]) + b'\x00\x00\x00\x20abc'))}),
     }
 
